@@ -19,7 +19,8 @@ EXTENDS ByteOps
 
 CONSTANTS NameSet, ValueSet, AttrSet,   \* texts (selected with `<-`)
           MaxOps,
-          FreeRaise                     \* TRUE: a call may raise at will (property level); FALSE: it raises iff it must
+          FreeRaise,                    \* TRUE: a call may raise at will (property level); FALSE: it raises iff it must
+          Flags                         \* TRUE: also all combinations of max_age / httponly / secure / expires / domain
 
 StrUpTo(alpha, n) == UNION {[1..k -> alpha] : k \in 0..n}
 ValAlpha  == {97, 34, 92, 59, 44, 61, 32, 127, 233, 256, 49, 10}      \* a " \ ; , = SP DEL e-acute U+0100 1 LF
@@ -182,8 +183,9 @@ AttrChoices ==
     {[PlainAttrs EXCEPT !.domain = d] : d \in AttrSet}
     \cup {[PlainAttrs EXCEPT !.path = p] : p \in AttrSet \cup {<<>>}}
     \cup {[PlainAttrs EXCEPT !.samesite = x] : x \in AttrSet \cup {<<76, 97, 120>>}}
-    \cup {[PlainAttrs EXCEPT !.maxage = m, !.httponly = h, !.secure = c, !.expires = x, !.domain = d] :
-             m \in {0, 5}, h \in BOOLEAN, c \in BOOLEAN, x \in BOOLEAN, d \in {<<>>, <<97, 46, 98>>}}
+    \cup (IF Flags THEN {[PlainAttrs EXCEPT !.maxage = m, !.httponly = h, !.secure = c, !.expires = x, !.domain = d] :
+                           m \in {0, 5}, h \in BOOLEAN, c \in BOOLEAN, x \in BOOLEAN, d \in {<<>>, <<97, 46, 98>>}}
+           ELSE {[PlainAttrs EXCEPT !.httponly = TRUE, !.maxage = 5]})
 
 InitState == jar = <<>> /\ flushed = FALSE /\ lines = <<>> /\ step = [act |-> "init", args |-> <<>>, raised |-> FALSE]
 SetValue == Len(jar) < MaxOps /\ \E n \in NameSet, v \in ValueSet, r \in BOOLEAN : Set(n, v, PlainAttrs, r)
